@@ -94,10 +94,23 @@ def run(ctx):
             ctx.check("written-dict-is-result", w, len(sets) >= 1 and all(norm(c.args[0]) == names[0] for c in sets), f"the destination is written with the reconciled `{names[0]}` only", construct="; ".join(norm(c)[:50] for c in sets), message="the destination's tags are written from something other than the reconciled result")
             rets = [norm(r.value) for r in walk_own(f) if isinstance(r, ast.Return)]
             ctx.check("updates-conflicts-returned", w, rets == [f"({names[1]}, {names[2]})"], "the reported updates and conflicts are returned to the caller", construct=str(rets))
+            # read-modify-write in one function: the destination dict reconciled is read from the very object that is written
+            recv_w = {call_recv(c) for c in sets}
+            dst_name = norm(users[0].value.args[1]) if len(users[0].value.args) > 1 else ""
+            dsrc = [s.value for s in walk_own(f) if isinstance(s, ast.Assign) and norm(s.targets[0]) == dst_name]
+            ok_rmw = len(dsrc) == 1 and isinstance(dsrc[0], ast.Call) and call_attr(dsrc[0]) == "get_tag_dict" and {call_recv(dsrc[0])} == recv_w
+            ctx.check("destination-read-with-write", w, ok_rmw, f"the destination dictionary is read (get_tag_dict) from the object that is then written, in the same function (one locked read-modify-write)", construct=f"{dst_name} <- {[norm(x)[:40] for x in dsrc]} / written on {sorted(recv_w)}", message="the destination's tags are reconciled against a dictionary that was not read in the writing function: a snapshot taken before the lock silently drops tags added meanwhile")
             args = [norm(a) for a in users[0].value.args]
             ctx.check("reconcile-arguments", w, len(args) == 4 and args[2] == "overwrite" and args[3] == "selector" and "source" in args[0] and "dest" in args[1], f"_reconcile_tags({', '.join(args)}) — source first, destination second", construct=str(args))
     ctx.require(n_users >= 2, f"only {n_users} callers of _reconcile_tags found")
     fm = repo.func(TG, "InterTags.merge")
+    from ..cfg import build_cfg
+    from ..rules import calling as _calling
+
+    gm = build_cfg(fm)
+    lk = _calling(gm, attr="lock_write", recv="self.target.branch")
+    mts = _calling(gm, attr="_merge_to")
+    ctx.check("destination-locked-before-read", f"{TG}:InterTags.merge", bool(lk) and bool(mts) and gm.always_before(lk, mts)[0] and not any(call_attr(c) == "get_tag_dict" and "target" in (call_recv(c) or "") for c in calls_in(fm)), "the target branch is write-locked before its tags are read and reconciled (no read of the target's tags outside _merge_to)", message="the target's tag dictionary is read before the target branch is write-locked")
     mt = [c for c in calls_in(fm) if call_attr(c) == "_merge_to"]
     ctx.check("master-tags-reconciled", f"{TG}:InterTags.merge", len(mt) == 2 and any(norm(c.args[0]) == "master.tags" for c in mt) and "None if ignore_master else self.target.branch.get_master_branch()" in norm(fm), "the master's tags are reconciled too unless ignore_master")
 
